@@ -537,7 +537,7 @@ pub fn s_first() -> Vec<WCfg> {
     let mut out = Vec::new();
     let policies: [(u32, u32, u16); 6] = [(0, 5000, 1008), (1000, 0, 1008), (0, 1, 40), (u32::MAX, u32::MAX, 65535), (1, 1_000_000, 144), (7, 13, 35)];
     for (pi, (base, ppm, delta)) in policies.iter().enumerate() {
-        for kind in ["low-total", "low-expiry", "both", "no-total-low-forward"] {
+        for kind in ["low-total", "low-expiry", "both", "no-total-low-forward", "expiry-zero", "expiry-negative", "expiry-far-negative", "expiry-i64-min"] {
             let mut c = WCfg::base(&format!("S-first/p{}/{}", pi, kind));
             c.fee_base = *base;
             c.fee_ppm = *ppm;
@@ -545,11 +545,22 @@ pub fn s_first() -> Vec<WCfg> {
             c.safety_delta = 34.min(*delta - 1);
             let inv = c.add_invoice(&InvoiceSpec::fixed(1, 1_000_000));
             let need = c.required(1_000_000).min(u64::MAX as u128) as u64;
-            let total = if kind == "low-expiry" { need } else { need - 1 };
+            // relative expiries at and below zero (an HTLC replayed after its expiry height has passed)
+            let odd_rel: Option<i64> = match kind {
+                "expiry-zero" => Some(0),
+                "expiry-negative" => Some(-1),
+                "expiry-far-negative" => Some(-100_000),
+                "expiry-i64-min" => Some(i64::MIN),
+                _ => None,
+            };
+            let total = if kind == "low-expiry" || odd_rel.is_some() { need } else { need - 1 };
             // without a declared total the HTLC's own forward amount is the declared total
             let declared = if kind == "no-total-low-forward" { None } else { Some(total) };
             let t = add_htlc_full(&mut c, "f", inv, 400_000, declared, None);
-            if kind != "low-total" && kind != "no-total-low-forward" {
+            if let Some(rel) = odd_rel {
+                c.templates[t].spec.cltv_expiry = (c.start_height as i64).saturating_add(rel).max(0) as u32;
+                c.templates[t].spec.cltv_expiry_relative = Some(rel);
+            } else if kind != "low-total" && kind != "no-total-low-forward" {
                 c.templates[t].spec.cltv_expiry = c.start_height + *delta as u32 - 1;
             } else {
                 c.templates[t].spec.cltv_expiry = c.start_height + *delta as u32;
